@@ -7,8 +7,8 @@ openat / write / rename / mkdir / unlink ... system call that touches the tree (
 statement is applied to the directory the dead process left behind: every previously committed manifest is byte-identical, the chain file parses (xml.etree) and still lists
 every previously committed generation with its digest, nothing listed is missing or half present, nothing outside the
 ascmhl folders changed, and the next commands (verify, info, diff, create, verify) behave like they do on an
-uninterrupted control copy (old state or completed state) instead of aborting.  Histories with no prior generation are
-treated leniently (only 'nothing outside the ascmhl folder is damaged')."""
+uninterrupted control copy (old state or completed state) instead of aborting.  For a root with no prior generation the
+clauses about committed manifests are vacuous; the next commands are checked there too (old state = "no history", exit 30)."""
 import json
 import os
 import random
@@ -523,6 +523,12 @@ def build_base(run, spec, n):
     else:
         cand = [h for h in b.hists if h and b.hists[h]["manifests"]]
         b.strict = [h for h in cand if not any(h.startswith(o + os.sep) for o in cand)]
+    # the root the interrupted create works on, when it has no committed generation yet ("0 prior generations"): nothing
+    # committed can be damaged there, but the next command must still load normally (old state = no history, or the
+    # completed first generation) - it is checked like the strict roots
+    target = b.spec.get("at") or ""
+    b.fresh = [target] if not b.hists.get(target, {}).get("manifests") else []
+    b.next_roots = b.strict + [r for r in b.fresh if r not in b.strict]
     return b
 
 
@@ -566,7 +572,7 @@ def next_commands(R, fmts):
 def run_sequence(copy_dir, b, fmts):
     """the following commands on every strict root; returns {root: [(name, exit code, exception repr, tail)]}"""
     res = {}
-    for r in b.strict:
+    for r in b.next_roots:
         R = os.path.join(copy_dir, "t", r) if r else os.path.join(copy_dir, "t")
         seq = []
         for name, args in next_commands(R, fmts):
@@ -645,7 +651,7 @@ def chain_len(root, r):
 def check_next(run, cid, b, copy_dir, fmts, allowed, inp):
     """the next commands on the directory the dead process left behind"""
     root = os.path.join(copy_dir, "t")
-    before = {r: chain_len(root, r) for r in b.strict}
+    before = {r: chain_len(root, r) for r in b.next_roots}
     got = run_sequence(copy_dir, b, fmts)
     for r, seq in got.items():
         bad = []
@@ -660,13 +666,13 @@ def check_next(run, cid, b, copy_dir, fmts, allowed, inp):
                 cid,
                 f"after the interrupted create, `{name}` (step {i + 1} of verify/info/diff/create/verify) on history '{r or '.'}' exits {code}"
                 f"{' with ' + exc if exc else ''}; the uninterrupted controls exit {ok}. all deviating steps: {[(x[1], x[2]) for x in bad]}. output: {tail!r}",
-                f"next/{name}/{cls}",
+                f"next/{name}/{cls}" + ("/fresh-root" if r in b.fresh else ""),
                 inp=inp,
             )
             continue
         ccode = seq[3][1]
         after = chain_len(root, r)
-        if ccode in (0, 11) and not after > before[r] >= 0:
+        if ccode in (0, 11) and not (after > before[r] and (before[r] >= 0 or r in b.fresh)):
             run.violation(cid, f"the following create on '{r or '.'}' exits {ccode} but the chain lists {after} generations (before: {before[r]})", "next/create/not-recorded", inp=inp)
     check_state(run, cid, b, root, "after the following create", inp)
     return got
@@ -755,7 +761,7 @@ def do_task(run, wi, spec, variant):
         run.violation(cid, b.setup_error, "setup/exit")
         return
     fmts = spec["fmts"]
-    strict = bool(b.strict)
+    strict = bool(b.next_roots)
     # control 1: the following commands on the untouched old state
     d = fresh(b)
     absent = run_sequence(d, b, fmts)
